@@ -325,6 +325,33 @@ class Run:
                                       'clause': None, 'where': f"{u['file']}:{u['line']}", 'src': u['text'], 'rendered': f"{u['file']}:{u['line']}: {u['text']}"})
         # site anchors that no longer match: their clauses were dropped. If nothing else fails for this property the
         # run cannot vouch for those sites -> UNDECIDED (a failure elsewhere is still a violation).
+        # functions that are NEW in this tree (absent from known_functions.json, the reference the contracts were written
+        # against) have no contract: woven as external_body their effect is unknown to Verus, so a proof failing in a
+        # function that calls one is "needs a contract" (undecided), not a violation of the property.
+        try:
+            known = json.load(open(os.path.join(VERIF, 'known_functions.json')))
+        except Exception:
+            known = None
+        if known is not None:
+            newfns = [f for f in w.fn_info if not f['listed'] and f['qual'] not in known.get(f['file'], [])]
+            if newfns:
+                self.notes.append('functions not in the reference tree (no contract, effect unknown): ' + ', '.join(f"{f['file']}::{f['qual']}" for f in newfns))
+                for fl in self.failures:
+                    if fl.get('engine') != 'verus' or '::' not in fl.get('fn', ''): continue
+                    frel, fqual = fl['fn'].split('::', 1)
+                    info = next((x for x in w.fn_info if x['file'] == frel and x['qual'] == fqual), None)
+                    if not info: continue
+                    body = '\n'.join(w.originals.get(frel, '').split('\n')[info['line'] - 1:info['end_line']])
+                    for nf in newfns:
+                        nm = nf['qual'].split('::')[-1]
+                        if re.search(r'(?<![A-Za-z0-9_])' + re.escape(nm) + r'\s*\(', body) and nf is not info:
+                            fl['needs_contract'] = f"{nf['file']}::{nf['qual']}"
+                nc = [fl for fl in self.failures if fl.get('needs_contract')]
+                if nc:
+                    self.failures = [fl for fl in self.failures if not fl.get('needs_contract')]
+                    self.deferred_undecided.append('proof failed in ' + ', '.join(sorted(set(fl['fn'] for fl in nc)))
+                                                   + ' which call(s) ' + ', '.join(sorted(set(fl['needs_contract'] for fl in nc)))
+                                                   + ': new function(s) without a contract (needs contract, not a violation)')
         soft = [l for l in w.soft_lost if self.prop in l['props']]
         if soft:
             self.notes.append('site anchors lost (clauses dropped): ' + '; '.join(l['desc'] for l in soft))
